@@ -231,6 +231,29 @@ func runC16(p *eng.Prog, r *eng.Report, tier string) {
 		}
 		c.r.Floor("C16.10", "returns of "+w.name, nr, 1)
 	}
+	// ---- C16.11 progress before "short destination" ---------------------------------------
+	// a Transform asks for a bigger destination only after it has copied what
+	// fits: every return of transform.ErrShortDst has passed a copy into dst. A
+	// refusal up front ("dst is shorter than src, ask for more right away")
+	// makes no progress with a fixed-size destination: transform.Reader fails
+	// with ErrShortDst for inputs that String handles.
+	for _, tf := range []*eng.Fn{et, ut} {
+		if tf == nil {
+			continue
+		}
+		tg := tf.Graph()
+		nsd := 0
+		isCopy := func(q eng.Point, nd ast.Node) bool { return tf.ContainsCall(nd, "builtin.copy") != nil }
+		for _, rs := range tg.Returns {
+			if len(rs.Results) != 3 || tf.Norm(rs.Results[2], nil) != "var:golang.org/x/text/transform.ErrShortDst" {
+				continue
+			}
+			nsd++
+			rp, _ := tg.Where(rs)
+			c.r.Check("C16.11", tf, "ErrShortDst after copying what fits", "O: every return of ErrShortDst has passed a copy into the destination", rs.Pos(), tg.MustPassBefore(tg.Entry(), rp, isCopy, nil), "the destination is refused before anything was copied: with a destination of fixed size the call never makes progress")
+		}
+		c.r.Floor("C16.11", "ErrShortDst returns in "+tf.Short, nsd, 1)
+	}
 	// ---- C16.9 the two bytes after the escape character exist (Span) ---------------------
 	if us != nil {
 		sg := us.Graph()
